@@ -16,6 +16,17 @@ CHECKS = {
          "Full 64-bit operands for + - / % and unary minus. For `*` and for the |remainder|<|divisor| bound the full-width *proof* is beyond all three solvers (60 s): counterexample search is full width, queries that stay unknown are counted in the evidence as undecided. math.Mod is a contract stub (sign, magnitude, finiteness). Out-of-float64-range json.Number excluded here (C05).", "6 C13"),
 }
 
+CHECKS.update({
+ "C07": ("Every accessor/filter chain of up to 2 (thorough: 3) steps from {.a .b .* [*] [0] [1] [last] [0 to 1] [0,1] .** ?(@.a == 1) ?(exists(@.a)) ?(@[*] > 0)} is executed in lax and in strict mode by the real exec code on every document shape within the bound (kinds forced lazily, leaves symbolic), and compared with a reference walk written from the documented rules: lax never errs; strict raises the suppressible class exactly when the walk meets a structural mismatch, at whatever array or subscript-list position; items agree in both modes.",
+         "Documents: depth <= 2, width <= 2, keys {a,b}, leaves null / finite float64 (thorough: depth 3, strings). Subscripts directly below .** in strict mode are excluded (the property speaks of member accessors only; the port raises where PostgreSQL skips). The reference evaluator (harness/ref.go) is part of the trusted base.", "6 C07"),
+ "C12": ("The six comparison operators, starts with, and the lax/strict sequence rules are executed by the real compareItems/compareNumeric/executePredicate code on symbolic pairs and triples of items of every kind and numeric representation (int64, float64, json.Number int/float, strings as symbolic bytes); results are compared with an exact order computed in the solver (int64 vs float64 by floor/fraction case split, no rounding), and duality, union, negation, trichotomy and transitivity are checked as relations between executions.",
+         "Strings <= 2 bytes (thorough 4); arrays of <= 2 items per side for the sequence rules; transitivity triples over float64/int64/string in quick, plus json.Number in thorough. like_regex (flag translation, matching) is not decided here: regexp is stdlib (see C04 for flags). Datetime ordering is C17.", "6 C12"),
+ "C14": ("Arrays of every length 0..3 (thorough 5) with lazily shaped elements (JSON null included), a non-array document, and subscript forms [$i] [$i to $j] [$i,$j] [last] [$i to last] [last - 1 to $j] [0, $i to $j] plus nested subscripts, with every bound an unconstrained number (int64 / float64; thorough also json.Number): items and error class are compared with slice arithmetic in the reference evaluator for both modes.",
+         "Known finding listed: an element that is JSON null is dropped (pinned by the repository's own TestExecArrayIndex/skip_nil, so not repaired); every other divergence is still reported under a different label.", "6 C14"),
+ "C15": ("`.*`, `[*]`, `.**`, `.**{k}`, `.**{a to b}`, `.**{last}` and member/wildcard accessors after `.**` are executed on every JSON tree shape within the bound (empty arrays and objects included) and compared, as multisets where object member order is open and in pre-order otherwise, with an explicit tree walk; level bounds are also symbolic (ast.NewAny on unconstrained ints in -1..2^32), and .** == .**{0 to last}, .**{1}.**{1} == .**{2} are checked as relations between executions.",
+         "Trees: depth <= 2, width <= 2, keys {a,b} (thorough depth 3). Object member order is left open (multiset comparison).", "6 C15"),
+})
+
 NA = {}
 
 def main():
